@@ -207,6 +207,51 @@ example : capSet_Add {} [lit "x"] = .error .nilMap := by decide
 example : capSet_Add {} [] = .ok {} := by decide
 example : capSet_Has {} (lit "x") = .ok false := by decide
 
+/-! ## v2.5: the simple built-in handlers (client/handlers.go) and `(*Line).argslen`
+
+Expected values: `client.VerifCapture(conn, func(){ client.VerifDispatchInternal(conn, line) })` on
+`client.Client(client.NewConfig("me", "id", "Real Name"))` — the real dispatcher, which for these commands runs exactly the
+one handler — with a `cfg.Recover` that records the panic (printed by scratch/smokego3, not typed).  A Go panic in the
+handler is the `.error` of the generated def. -/
+def hcfg : Config := { Me := { Nick := lit "me", Ident := lit "id", Name := lit "Real Name" }, Version := lit "Powered by GoIRC", QuitMessage := lit "GoBye!", SplitLen := 450 }
+def hc0 : Conn := { cfg := hcfg }
+def hc1 : Conn := { cfg := { hcfg with EnableCapabilityNegotiation := true, Pass := lit "secret" } }
+def hc20 : Conn := { cfg := { hcfg with SplitLen := 20 } }
+
+example : Conn_h_PING hc0 { Cmd := lit "PING", Nick := [], Args := [lit "12345"] } = .ok { hc0 with out := [lit "PONG :12345"] } := by decide
+example : Conn_h_PING hc0 { Cmd := lit "PING", Nick := [], Args := [lit "a\x0d\x0ab", lit "ignored"] } = .ok { hc0 with out := [lit "PONG :a"] } := by decide
+-- Go: runtime error: index out of range [0] with length 0
+example : Conn_h_PING hc0 { Cmd := lit "PING", Nick := [], Args := [] } = .error (.index 0 0) := by decide
+example : Conn_h_REGISTER hc0 { Cmd := lit "REGISTER", Nick := [], Args := [] } = .ok { hc0 with out := [lit "NICK me", lit "USER id 12 * :Real Name"] } := by decide
+example : Conn_h_REGISTER hc1 { Cmd := lit "REGISTER", Nick := [], Args := [] } = .ok { hc1 with out := [lit "CAP LS", lit "PASS secret", lit "NICK me", lit "USER id 12 * :Real Name"] } := by decide
+example : Conn_h_410 hc0 { Cmd := lit "410", Nick := [], Args := [lit "me", lit "FOO", lit "Invalid CAP command"] } = .ok { hc0 with out := [] } := by decide
+-- Go: runtime error: index out of range [1] with length 1
+example : Conn_h_410 hc0 { Cmd := lit "410", Nick := [], Args := [lit "me"] } = .error (.index 1 1) := by decide
+example : Conn_h_903 hc0 { Cmd := lit "903", Nick := [], Args := [lit "me", lit "SASL authentication successful"] } = .ok { hc0 with out := [lit "CAP END"] } := by decide
+example : Conn_h_903 hc0 { Cmd := lit "903", Nick := [], Args := [] } = .ok { hc0 with out := [lit "CAP END"] } := by decide
+example : Conn_h_904 hc0 { Cmd := lit "904", Nick := [], Args := [] } = .ok { hc0 with out := [lit "CAP END"] } := by decide
+example : Conn_h_908 hc0 { Cmd := lit "908", Nick := [], Args := [lit "me", lit "PLAIN,EXTERNAL", lit "are available"] } = .ok { hc0 with out := [lit "CAP END"] } := by decide
+-- Go: runtime error: index out of range [1] with length 1
+example : Conn_h_908 hc0 { Cmd := lit "908", Nick := [], Args := [lit "me"] } = .error (.index 1 1) := by decide
+-- Go: runtime error: index out of range [1] with length 0
+example : Conn_h_908 hc0 { Cmd := lit "908", Nick := [], Args := [] } = .error (.index 1 0) := by decide
+example : Conn_h_CTCP ext hc0 { Cmd := lit "CTCP", Nick := lit "bob", Args := [lit "VERSION", lit "me"] } = .ok { hc0 with out := [lit "NOTICE bob :\x01VERSION Powered by GoIRC\x01"] } := by decide
+example : Conn_h_CTCP ext hc0 { Cmd := lit "CTCP", Nick := lit "bob", Args := [lit "PING", lit "me", lit "1234 5678"] } = .ok { hc0 with out := [lit "NOTICE bob :\x01PING 1234 5678\x01"] } := by decide
+example : Conn_h_CTCP ext hc0 { Cmd := lit "CTCP", Nick := lit "bob", Args := [lit "PING", lit "me"] } = .ok { hc0 with out := [] } := by decide
+example : Conn_h_CTCP ext hc0 { Cmd := lit "CTCP", Nick := lit "bob", Args := [lit "PING"] } = .ok { hc0 with out := [] } := by decide
+example : Conn_h_CTCP ext hc0 { Cmd := lit "CTCP", Nick := lit "bob", Args := [lit "TIME", lit "me", lit "x"] } = .ok { hc0 with out := [] } := by decide
+example : Conn_h_CTCP ext hc0 { Cmd := lit "CTCP", Nick := lit "bob", Args := [lit "ping", lit "me", lit "x"] } = .ok { hc0 with out := [] } := by decide
+-- Go: runtime error: index out of range [0] with length 0
+example : Conn_h_CTCP ext hc0 { Cmd := lit "CTCP", Nick := lit "bob", Args := [] } = .error (.index 0 0) := by decide
+example : Conn_h_CTCP ext hc20 { Cmd := lit "CTCP", Nick := lit "bob", Args := [lit "PING", lit "me", lit "one two. three four five six"] } = .ok { hc20 with out := [lit "NOTICE bob :\x01PING one two. ...\x01", lit "NOTICE bob :\x01PING three four five six\x01"] } := by decide
+
+-- argslen(n) is len(Args) > n; the logging / runtime calls in it are dropped
+example : Line_argslen { Args := [] } 0 = .ok false := by decide
+example : Line_argslen { Args := [lit "a"] } 0 = .ok true := by decide
+example : Line_argslen { Args := [lit "a", lit "b"] } 2 = .ok false := by decide
+example : Line_argslen { Args := [lit "a", lit "b", lit "c"] } 2 = .ok true := by decide
+example : Line_argslen { Args := [lit "a"] } (-1) = .ok true := by decide
+
 /-! No input makes the CURRENT Go source of these functions panic (all indexing is guarded), so there is
 no `.error` example on a generated def here.  REPORT.md lists the edited variants of the source
 (guards removed, statements swapped) on which Go panics and the regenerated defs give the same `.error`. -/
